@@ -43,3 +43,69 @@ fn c13_compressor_below_threshold_is_transparent() {
 	kani::cover!(x != 0.0 && wet, "w:quiet-signal-wet");
 	std::mem::forget(fx); std::mem::forget(c); std::mem::forget(m); std::mem::forget(l);
 }
+
+// exp spy: records the arguments the envelope follower hands to exp()
+static mut KV_EXP_ARGS: [f64; 4] = [0.0; 4];
+static mut KV_EXP_N: usize = 0;
+fn kv_exp64_spy(x: f64) -> f64 {
+	unsafe { if KV_EXP_N < 4 { KV_EXP_ARGS[KV_EXP_N] = x; } KV_EXP_N += 1; }
+	kv_exp64(x)
+}
+
+fn kv_close(a: f64, b: f64) -> bool { (a - b).abs() <= 1e-9 * b.abs() }
+
+// @h prop=C13,C14 tier=quick kind=main timeout=600
+// @bounds default compressor (attack 10 ms, release 100 ms), envelope in ANY finite non-negative state per channel; ONE chunk of TWO frames of any finite level <= 1; dt = 1/48000 s. Native replay: the same chunk processed as one chunk of two and as two chunks of one must agree to 1e-6
+// @funcs Compressor::process
+// @assume exp replaced by a recording contract stub; log10 / powf contract stubs
+// @catches the envelope's attack / release speed depending on the chunk length (time constants must be per FRAME: the argument of exp is -dt/duration with the per-frame dt for every frame of a chunk), attack and release swapped, the envelope of one channel driving the other
+#[kani::proof]
+#[kani::unwind(6)]
+#[kani::stub(f32::log10, kv_log10f32)]
+#[kani::stub(f64::exp, kv_exp64_spy)]
+#[kani::stub(f32::powf, kv_powf32)]
+fn c13_compressor_envelope_speed_is_per_frame() {
+	let x: [f32; 2] = kani::any();
+	let e: [f32; 2] = kani::any();
+	kani::assume(x[0].is_finite() && x[0].abs() <= 1.0 && x[1].is_finite() && x[1].abs() <= 1.0);
+	kani::assume(e[0] >= 0.0 && e[0] <= 100.0 && e[1] >= 0.0 && e[1] <= 100.0);
+	let dt = 1.0 / 48000.0;
+	let c: Arena<crate::clock::Clock> = Arena::new(0);
+	let m: Arena<Box<dyn crate::modulator::Modulator>> = Arena::new(0);
+	let l: Arena<crate::listener::Listener> = Arena::new(0);
+	let info = Info::new(&c, &m, &l, None);
+	if cfg!(kv_native) {
+		let mut a = kv_compressor(1.0); a.envelope_follower = e;
+		a.threshold = Parameter::new(Value::Fixed(-40.0), -40.0); a.ratio = Parameter::new(Value::Fixed(4.0), 4.0);
+		let mut b = kv_compressor(1.0); b.envelope_follower = e;
+		b.threshold = Parameter::new(Value::Fixed(-40.0), -40.0); b.ratio = Parameter::new(Value::Fixed(4.0), 4.0);
+		let mut one = [Frame::from_mono(x[0]), Frame::from_mono(x[1])];
+		a.process(&mut one, dt, &info);
+		let mut f0 = [Frame::from_mono(x[0])];
+		let mut f1 = [Frame::from_mono(x[1])];
+		b.process(&mut f0, dt, &info);
+		b.process(&mut f1, dt, &info);
+		assert!((one[0].left - f0[0].left).abs() <= 1e-6 && (one[1].left - f1[0].left).abs() <= 1e-6, "native: the output does not depend on how the signal is cut into chunks");
+		return;
+	}
+	let mut fx = kv_compressor(1.0);
+	fx.envelope_follower = e;
+	let mut buf = [Frame::from_mono(x[0]), Frame::from_mono(x[1])];
+	fx.process(&mut buf, dt, &info);
+	let attack = -1.0 / (0.010 / dt);
+	let release = -1.0 / (0.100 / dt);
+	unsafe {
+		assert!(KV_EXP_N == 4, "one envelope step per frame and channel");
+		let mut i = 0;
+		while i < 4 {
+			let a = KV_EXP_ARGS[i];
+			assert!(kv_close(a, attack) || kv_close(a, release), "exp(-dt/duration) with the per-frame dt, whatever the chunk length");
+			i += 1;
+		}
+		// rising level -> attack, falling -> release (first frame, left channel: the envelope state is the given one)
+		let over = (20.0 * x[0].abs().log10() - 0.0f32).max(0.0);
+		if e[0] > over { assert!(kv_close(KV_EXP_ARGS[0], release)); } else { assert!(kv_close(KV_EXP_ARGS[0], attack)); }
+	}
+	kani::cover!(e[0] > 0.0 && x[0] != 0.0, "witness");
+	std::mem::forget(fx); std::mem::forget(c); std::mem::forget(m); std::mem::forget(l);
+}
